@@ -184,7 +184,7 @@ def run(ctx):
                     fitters.append(Fitter(list(filt), (theta * u.arcsec).to(aunit), d, extinction_law=law, av_range=(lo_, hi_),
                                           distance_range=dr_q, use_memmap=memmap))
             except Exception as exc:
-                ctx.violation('grid:fitter-construction-failed', 'Fitter() raised inside the quantifier: %r' % (exc,), wit0)
+                ctx.raised(exc, 'grid:fitter-construction-failed', 'Fitter() raised inside the quantifier: %r' % (exc,), wit0)
                 continue
             fitter = fitters[0]
             # the unit round trip of the apertures is part of "theta": use the values the user's quantity converts back to
@@ -203,7 +203,7 @@ def run(ctx):
                 ctx.regime('beyond_table')
             # float32 memmap: log10 evaluated in float32; float32 (1E, the documented format) tables are
             # interpolated by scipy in float32 arithmetic: relative 1e-7 on the flux = 5e-8 dex
-            delta = 3e-7 * (1 + float(np.max(np.abs(logm)))) if fitcheck.holds_float32(fitter) else (1e-7 if fmt == 'E' else 0.0)
+            delta = 3e-7 * (1 + float(np.max(np.abs(logm)))) if ((memmap and is_v2) or fitcheck.holds_float32(fitter)) else (1e-7 if fmt == 'E' else 0.0)
             # model fluxes held by the fitter vs truth (rows by name)
             # state probe: the per-distance model fluxes held by the fitter.  This looks at internal state, so a different
             # layout (shape/attribute) is not judged - the fits below decide then; a same-shaped table with wrong values is.
@@ -250,7 +250,7 @@ def run(ctx):
                     try:
                         fitter.fit(src)
                     except Exception as exc:
-                        ctx.violation('fit3d:fit-raised', 'Fitter.fit raised inside the quantifier: %r' % (exc,), wit)
+                        ctx.raised(exc, 'fit3d:fit-raised', 'Fitter.fit raised inside the quantifier: %r' % (exc,), wit)
                         continue
                     sm = CUR.get('summary')
                     ctx.case(('fit', ip, ir, isrc, lo, hi, ctx.shard), nontrivial=sm is not None)
